@@ -717,6 +717,12 @@ class Interp:
             raise Undecided("IntToInt cast of %r" % (v,))
         if ck in ("PtrToPtr",):
             return v
+        if ck == "PointerExposeProvenance":
+            if isinstance(v, VRef) and v.root[0] == "node" and not v.path and st.nodes[v.root[1]].invec:
+                return VInt(Lin(0, ("addr", v.root[1]), 1), 64, False)
+            if isinstance(v, VOpaque) and v.tag == "nodes-ptr-start":
+                return VInt(Lin(0, ("addr0",), 1), 64, False)
+            raise Undecided("pointer-to-integer cast of %r" % (v,))
         raise Undecided("cast " + ck)
 
     # ------------------------------------------------------------------ arithmetic
@@ -849,6 +855,18 @@ class Interp:
             raise Undecided("bool binop " + op)
         if isinstance(a, VInt) and isinstance(b, VInt):
             bits, signed = a.bits, a.signed
+            # slice layout: element i of the node vector lives at base + i * size_of::<Node<T>>() (language guarantee)
+            if a.t.sym and a.t.sym[0] == "addr" and b.t.sym == ("addr0",) and a.t.k == 1 and b.t.k == 1 and a.t.c == 0 and b.t.c == 0:
+                if op in ("Sub", "SubUnchecked"):
+                    return VInt(Lin(0, ("off", a.t.sym[1]), 1), bits, signed)
+                if op == "SubWithOverflow":
+                    return VTuple((VInt(Lin(0, ("off", a.t.sym[1]), 1), bits, signed), VBool(False)))
+                if op in ("Lt",):
+                    return VBool(False)
+                if op in ("Ge",):
+                    return VBool(True)
+            if op == "Div" and a.t.sym and a.t.sym[0] == "off" and b.t.sym == ("size",) and a.t.k == 1 and b.t.k == 1 and a.t.c == 0 and b.t.c == 0:
+                return VInt(Lin(0, ("idx", a.t.sym[1]), 1), bits, signed)
             if op in ("Eq", "Ne", "Lt", "Le", "Gt", "Ge"):
                 return VBool(self.cmp(st, a.t, b.t, op))
             if op in ("Add", "Sub", "AddWithOverflow", "SubWithOverflow", "AddUnchecked", "SubUnchecked"):
